@@ -1,4 +1,12 @@
 TEXT = {
+ 'C16': {
+  'text': 'Lean 4 proof that every tracer query that ranges over a Go map returns a list independent of the iteration order '
+          '(iteration order is an explicit adversarial permutation argument); all other answers are pure functions of the operation '
+          'history in the model. Tied to the code by the correspondence check, which keeps the returned order of every list.',
+  'note': 'Trusted: Lean kernel + standard axioms; the M1 model of vm/tracer.go; Go randomises map iteration per range statement, '
+          'which is what lets repeated correspondence runs expose an order dependence.',
+  'technique': 'Lean 4 proof of permutation-invariance (sorting under a total order) + order-preserving correspondence',
+ },
  'C07': {
   'text': 'Machine-checked Lean 4 proof that the call-tree well-formedness invariant (dense indices, lookup=index, unique smaller '
           'parent listing each child once in increasing order) holds after EVERY finite history of SaveCall/ExitCall, balanced or '
